@@ -48,7 +48,8 @@ class _Sock:
         self.sent.append(h)
 
     def get_and_increment_sequence_counter(self, command):
-        self.n += 1
+        # cyclic like the real counters (a long-lived twin acknowledges thousands of messages in the thorough tier)
+        self.n = self.n % 191 + 1
         return self.n
 
 
